@@ -2,7 +2,7 @@ SPECIFICATION LiveSpec
 CONSTANTS
   Peers = {1, 2, 3}
   MaxR = 4
-  PT <- PTLive
+  PT <- PTLiveQuick
   Modes = {"follow"}
   ChainedSet = {TRUE}
   Starts = {1}
